@@ -60,7 +60,15 @@ def run_real(cfg, max_steps=6000):
             sub = mao.ActiveObject(name="A")
             pub = mao.ActiveObject(name="P")
             sub_actions = {"DO_SUB": lambda chart: chart.subscribe(Event(signal="PING"), queue_type=kind)}
-            pub_actions = {"DO_PUB": lambda chart: chart.publish(Event(signal="PING", payload=1))}
+            prio = cfg.get("priority", "default")
+
+            def do_publish(obj):
+                # with the default priority, or with one of the values a caller may pass (1 = "most urgent" in the class docstring)
+                if prio == "default":
+                    obj.publish(Event(signal="PING", payload=1))
+                else:
+                    obj.publish(Event(signal="PING", payload=1), priority=prio)
+            pub_actions = {"DO_PUB": do_publish}
             sub_chart = make_chart(log, "A", cfg["sub_spied"], sub_actions)
             pub_chart = make_chart(log, "P", cfg["pub_spied"], pub_actions)
 
@@ -79,12 +87,12 @@ def run_real(cfg, max_steps=6000):
                 for _ in range(60):
                     sched.yield_point("driver.pause")
                 if cfg["pub_when"] == "before_start":
-                    pub.publish(Event(signal="PING", payload=1))
+                    do_publish(pub)
                     pub.start_at(pub_chart)
                 else:
                     pub.start_at(pub_chart)
                     if cfg["pub_when"] == "after_outside":
-                        pub.publish(Event(signal="PING", payload=1))
+                        do_publish(pub)
                     else:
                         pub.post_fifo(Event(signal="DO_PUB"))
             sched.spawn(driver, (), name="D")
@@ -139,6 +147,10 @@ def _run_position(cfg, max_steps, errors, log):
                 sched.yield_point("driver.settle", enabled=lambda: all(t is me or t.finished or not sched.is_enabled(t) for t in sched.threads))
 
             def driver():
+                import collections
+                for kd in cfg.get("deques_first", ()):
+                    # somebody else's plain queue is registered for the signal before the active object subscribes
+                    sub.fabric.subscribe(collections.deque(maxlen=50), Event(signal="PING"), queue_type=kd)
                 if cfg["sub_when"] == "before_start":
                     do_sub(sub)
                     sub.start_at(chart)
@@ -184,6 +196,10 @@ def explore_position(run, focus="C09"):
     for kind in ("fifo", "lifo"):
         for cap, pending in ((4, 0), (4, 2), (4, 3), (4, 5), (3, 2), (2, 1)):
             cfgs.append({"position": True, "sub_spied": 1, "sub_when": "after_outside", "kind": kind, "cap": cap, "pending": pending})
+    # plain deques already subscribed to the same signal (same kind, other kind, both) when the active object subscribes
+    for k, first in enumerate((("lifo",), ("fifo",), ("lifo", "fifo"), ("lifo", "lifo"))):
+        for kind in ("fifo", "lifo", "both"):
+            cfgs.append({"position": True, "sub_spied": k % 2, "sub_when": WHEN[(k + len(kind)) % len(WHEN)], "kind": kind, "deques_first": list(first)})
     # the subscription kind given as an equal string that is not the literal (configuration file, JSON message, str subclass ...)
     for k, form in enumerate(charts.STRING_FORMS[1:]):
         for kind in ("fifo", "lifo", "both"):
@@ -192,6 +208,8 @@ def explore_position(run, focus="C09"):
         spied, when, kind = cfg["sub_spied"], cfg["sub_when"], cfg["kind"]
         if cfg.get("kind_form"):
             run.count("position: queue_type given as a string " + cfg["kind_form"])
+        if cfg.get("deques_first"):
+            run.count("position: plain deques subscribed to the signal first")
         r = run_position(cfg)
         run.traces_validated += 1
         run.count("position: subscribe %s%s" % (when, ", capacity %d with %d pending" % (cfg["cap"], cfg["pending"]) if cfg.get("cap") else ""))
@@ -216,6 +234,93 @@ def explore_position(run, focus="C09"):
         run.case(cfg, nontrivial=True)
 
 
+def run_publish_order(cfg, max_steps=8000):
+    """an active object publishes several events with different priorities while the fifo delivery thread is held inside a slow
+    subscriber (maximal lag): in which order do they reach an observer queue?"""
+    import collections
+    errors, log = [], []
+    res = {}
+    with dsched.Installed():
+        sched = dsched.Sched(dsched.round_robin_chooser(), max_steps=max_steps, trace=False)
+        dsched.Sched.current = sched
+        try:
+            released = [False]
+
+            class Slow:
+                """a subscriber whose append takes as long as the driver wants"""
+                def append(self, e):
+                    sched.yield_point("slow.append", enabled=lambda: released[0])
+            pub = mao.ActiveObject(name="P")
+            obs = collections.deque(maxlen=100)
+            pubs = cfg["pubs"]
+
+            def do_all(chart):
+                for k, p in enumerate(pubs):
+                    if p == "default":
+                        chart.publish(Event(signal="NEWS", payload=k))
+                    else:
+                        chart.publish(Event(signal="NEWS", payload=k), priority=p)
+            chart = make_chart(log, "P", cfg["pub_spied"], {"DO_ALL": do_all})
+
+            def quiet():
+                me = sched.me()
+                sched.yield_point("driver.settle", enabled=lambda: all(t is me or t.finished or not sched.is_enabled(t) for t in sched.threads))
+
+            def driver():
+                pub.start_at(chart)
+                af = pub.fabric
+                af.subscribe(Slow(), Event(signal="HOLD"), queue_type="fifo")
+                af.subscribe(obs, Event(signal="NEWS"), queue_type="fifo")
+                af.publish(Event(signal="HOLD"), priority=1)
+                quiet()                                   # the fifo delivery thread now sits in Slow.append
+                if cfg["from_handler"]:
+                    pub.post_fifo(Event(signal="DO_ALL"))
+                else:
+                    do_all(pub)
+                quiet()
+                released[0] = True
+                quiet()
+                res["order"] = [e.payload for e in obs]
+            sched.spawn(driver, (), name="D")
+            outcome = sched.run()
+            for t in sched.threads:
+                if t.error is not None:
+                    errors.append("%s: %s: %s" % (t.name, type(t.error).__name__, t.error))
+        finally:
+            leaked = sched.shutdown()
+            if leaked:
+                errors.append("leaked: %s" % leaked)
+    return {"outcome": outcome, "order": res.get("order"), "errors": errors}
+
+
+def explore_publish_order(run, focus, n):
+    """C08 (and C07) through the active object's own publish(): priorities given to ActiveObject.publish, spied and un-spied charts,
+    from outside and from a handler, the delivery thread lagging behind all of them (oracle only)"""
+    rng = run.rng
+    for _ in range(n):
+        cfg = {"publish_order": True, "pub_spied": rng.randrange(2), "from_handler": rng.randrange(2),
+               "pubs": [rng.choice(["default", 1, 2, 5, 500, 1000, 1001, 0]) for _ in range(rng.randint(2, 5))]}
+        r = run_publish_order(cfg)
+        run.traces_validated += 1
+        run.count("publish order through an active object (%s chart, %s)" % ("spied" if cfg["pub_spied"] else "un-spied",
+                                                                             "from a handler" if cfg["from_handler"] else "from outside"))
+        val = lambda p: 1000 if p == "default" else p
+        want = sorted(range(len(cfg["pubs"])), key=lambda k: (val(cfg["pubs"][k]), k))
+        if r["errors"]:
+            run.violate("%s/thread-error" % focus, "a thread died: %s" % r["errors"][:2], cfg)
+        elif r["order"] is None:
+            pass
+        elif sorted(r["order"]) != list(range(len(cfg["pubs"]))):
+            run.violate("%s/not-delivered/through-active-object" % focus, "a%s active object published %d events (priorities %s) while the delivery "
+                        "thread lagged: the observer received %s" % (" spied" if cfg["pub_spied"] else "n un-spied", len(cfg["pubs"]), cfg["pubs"], r["order"]), cfg)
+        elif r["order"] != want:
+            run.violate("%s/order/through-active-object" % focus, "a%s active object published events 0..%d with priorities %s (%s) while the delivery "
+                        "thread lagged: they arrived as %s, (priority, publish order) gives %s"
+                        % (" spied" if cfg["pub_spied"] else "n un-spied", len(cfg["pubs"]) - 1, cfg["pubs"],
+                           "from a handler" if cfg["from_handler"] else "from outside", r["order"], want), cfg)
+        run.case(cfg, nontrivial=True)
+
+
 def explore(run, n):
     rng = run.rng
     cfgs = all_configs()
@@ -225,6 +330,8 @@ def explore(run, n):
         run.exhaustive = True
     outs = leanrun.run_driver([encode(c) for c in cfgs])
     for cfg, mo in zip(cfgs, outs):
+        cfg = dict(cfg, priority=rng.choice(["default", "default", 1, 1, 0, 2, 7, 1000, 1001, 1.0, True]))
+        run.count("publish priority %r" % (cfg["priority"],))
         r = run_real(cfg)
         m = dict(kv.split("=") for kv in mo.split(" "))
         run.traces_validated += 1
@@ -254,6 +361,9 @@ def replay(case):
     cc = case.get("case", case)
     if cc.get("position"):
         print(run_position(cc))
+        return 0
+    if cc.get("publish_order"):
+        print(run_publish_order(cc))
         return 0
     print(run_real(cc))
     print(leanrun.run_driver([encode(cc)]))
